@@ -27,7 +27,7 @@ fn cmd_for(kind: char, id: &str, probes: &Path) -> (String, Vec<String>, Option<
         'O' => (format!("{}; echo foo", p), vec!["bar".into()], None),
         'C' => (format!("{}; echo foo; (exit 3)", p), vec!["foo".into()], None),
         'S' => (format!("{}; (exit 80)", p), vec![], None),
-        'T' => (format!("{}; sleep 2", p), vec![], Some("timeout: 300ms")),
+        'T' => (format!("{}; sleep 1.5", p), vec![], Some("timeout: 300ms")),
         _ => unreachable!(),
     }
 }
@@ -141,7 +141,14 @@ pub fn run_case(r: &mut Rng, scrut: &str, base: &Path, bash: &str) -> String {
     }
     let mut results = vec![];
     let mut done = vec![];
+    let started = std::time::Instant::now();
     for (mut ch, pdir, wd) in children { let st = ch.wait().expect("wait"); done.push((st, pdir, wd)); }
+    // a command that ran into its timeout must have been aborted: were it still running, its shell would write its state
+    // (and re-create the directories for it) when the command ends -- look only after that moment
+    if procs.iter().any(|p| p.docs.iter().any(|d| d.tests.contains(&'T'))) {
+        let until = std::time::Duration::from_millis(1900);
+        if started.elapsed() < until { std::thread::sleep(until - started.elapsed()); }
+    }
     // listings are taken when every process has ended (a shared work directory holds the temp.* of those still running)
     for (st, pdir, wd) in done {
         let probes = std::fs::read_to_string(pdir.join("probes")).unwrap_or_default();
